@@ -163,6 +163,12 @@ def tick(detector):
     _record(detector, "tick", False)
 
 
+def flags(detector, read_out_odd=True):
+    """a model that uses the detector's user-visible flags: clears `read_out` in odd steps (e.g. a frame selector)"""
+    detector.read_out = bool(read_out_odd) or int(detector.pipeline_count) % 2 == 0
+    _record(detector, "flags", False)
+
+
 def observe(detector, charge=True):
     """records the clock and a deep snapshot of every bucket (charge=False: without reading the charge bucket)"""
     _record(detector, "observe", True, charge=charge)
